@@ -182,9 +182,9 @@ MUTANTS['C16'] = (
 #   C01 intersperse-order-key, C03 slice-foreign-key-forwarded
 
 MUTANTS['C08'] = [
-  ('map-iter-eager-list', [(C, "            yield from map(self.map_function, self.input_dataset)", "            yield from [self.map_function(x) for x in self.input_dataset]")]),
+  ('map-iter-eager-list', [(C, "            for v in self.input_dataset:\n                yield self.map_function(v)\n\n    def keys(self):", "            yield from [self.map_function(x) for x in self.input_dataset]\n\n    def keys(self):")]),
   ('filter-predicate-twice', [(C, "            for example in self.input_dataset:\n                total_count += 1\n                if self.filter_function(example):\n                    yield example", "            for example in self.input_dataset:\n                total_count += 1\n                if self.filter_function(example) and self.filter_function(example):\n                    yield example")]),
-  ('batch-getitem-fetches-whole-input', [(C, "            input_index = item * self.batch_size\n            current_batch = []", "            input_index = item * self.batch_size\n            _all = list(self.input_dataset)\n            current_batch = []")]),
+  ('batch-getitem-fetches-whole-input', [(C, "            input_index = item * int(self.batch_size)\n            current_batch = []", "            input_index = item * int(self.batch_size)\n            _all = list(self.input_dataset)\n            current_batch = []")]),
   ('slice-iter-iterates-input-and-skips', [(C, "        else:\n            for idx in self.slice:\n                yield self.input_dataset[idx]", "        else:\n            _all = list(self.input_dataset)\n            for idx in self.slice:\n                yield _all[idx]")]),
   ('concat-len-by-listing', [(C, "        return sum([len(i) for i in self.input_datasets])", "        return sum([len(list(i)) for i in self.input_datasets])")]),
   ('shuffle-touches-examples', [(C, "            permutation = np.arange(len(self))\n            rng.shuffle(permutation)", "            permutation = np.arange(len(list(self)))\n            rng.shuffle(permutation)")]),
@@ -228,7 +228,7 @@ MUTANTS['C05'] = [
   ('lpm-terminate-removed', [(P, "            terminate(executor, q)\n            raise", "            raise")]),
   ('lpm-except-generatorexit-narrowed', [(P, "        except GeneratorExit:\n            # A GeneratorExit will not stop", "        except KeyboardInterrupt:\n            # A GeneratorExit will not stop")]),
   ('lpm-cancel-only-first', [(P, "            try:\n                while True:\n                    q.get(block=False).cancel()\n            except queue.Empty:\n                pass\n\n    elif backend is False:", "            try:\n                q.get(block=False).cancel()\n            except queue.Empty:\n                pass\n\n    elif backend is False:")]),
-  ('mp-pool-not-cleared', [(P, "            ex.join()\n            ex.clear()\n", "")]),
+  ('mp-pool-left-in-the-pathos-cache', [(P, "            ex = PathosPool(max_workers,\n                            id=('lazy_dataset', next(_PATHOS_POOL_IDS)))\n            try:\n                yield ex\n            finally:\n                ex.clear()", "            ex = PathosPool(max_workers)\n            yield ex"), (P, "            ex.join()\n            ex.clear()\n", "")]),
   ('mp-iterations-share-the-cached-pathos-pool', [(P, "            ex = PathosPool(max_workers,\n                            id=('lazy_dataset', next(_PATHOS_POOL_IDS)))", "            ex = PathosPool(max_workers)")]),
 ]
 
